@@ -151,7 +151,13 @@ Consistent(h) ==
                          /\ (h[i].k \in Harmless => Len(Norm(h[i].name)) = 1)
                          /\ (h[i].k = "l" => ~IsAbsT(h[i].tgt)       \* a link that stays inside the archive root at its own position
                                /\ Under(JoinClean(<<"#root">> \o Parent(Norm(h[i].name)), h[i].tgt), <<"#root">>))
-  /\ \A p \in EPaths(h) : Cardinality(KindsAt(h, p)) = 1
+  \* one kind per path - except that a link may be replaced by a later file or directory
+  \* ("for files and directories the last entry for a path wins")
+  /\ \A p \in EPaths(h) : \/ Cardinality(KindsAt(h, p)) = 1
+                           \/ /\ KindsAt(h, p) \in { {"l", "f"}, {"l", "d"} }
+                              /\ \A i, j \in DOMAIN h : (h[i].k \in Representable /\ h[j].k \in Representable /\ Norm(h[i].name) = p /\ Norm(h[j].name) = p
+                                                           /\ h[i].k = "l" /\ h[j].k # "l") => i < j
+                              /\ \A q \in EPaths(h) : ~ProperPrefix(p, q)
   /\ \A p \in EPaths(h), q \in EPaths(h) : ProperPrefix(p, q) => KindsAt(h, p) = {"d"}
   /\ \A i, j \in DOMAIN h : (i # j /\ h[i].k = "l" /\ h[j].k = "l") => Norm(h[i].name) # Norm(h[j].name)
   /\ \A i \in DOMAIN h : h[i].k = "g" => Norm(h[i].name) \notin EPaths(h)
